@@ -1,7 +1,7 @@
 (* C12 proofs, part K: per-list rate bound through ticks as a run-level total, for windows in which
    the root limit stays set (rate changes allowed, enable/disable not). *)
 From Coq Require Import List NArith Bool Lia PeanoNat.
-From LTV.C12 Require Import ParamsGen.
+From LTV.C12 Require Import ParamsGen PolicyGen.
 From LTV.C12 Require Import Model ProofsA ProofsB ProofsC ProofsD ProofsE ProofsF ProofsG ProofsJ.
 Import ListNotations.
 Local Open Scope N_scope.
@@ -92,7 +92,7 @@ Proof.
       injection Ef as <- _. lia.
     + exists t'. split; [assumption|]. destruct (l' =? l)%nat; lia.
   - (* tick *)
-    apply andb_prop in V as [V V3]. apply andb_prop in V as [V1 V2]. apply N.leb_le in V2, V3. rewrite tick_ms in V2.
+    apply andb_prop in V as [V V3]. apply andb_prop in V as [V1 V2]. apply N.leb_le in V2, V3.
     destruct (sinv_advance x dt S) as [Sa _].
     assert (Hr : mrate x <> 0). { rewrite V1 in S3. destruct (N.eqb_spec (mrate x) 0); [discriminate|assumption]. }
     destruct (receive_tick (advance x dt)) as [[x2 a]|] eqn:Et; cbn [bind] in E; [|discriminate]. injection E as <- _.
